@@ -1,7 +1,7 @@
 (* C08 — decoding accepts exactly the well-framed messages and never mis-frames one. *)
 From Coq Require Import List Arith NArith ZArith.
 Require Import CU.model.Prim CU.model.Types CU.model.Unicode CU.model.Codec CU.model.Dates CU.model.Card CU.model.Iso CU.spec.IsoSpec.
-Require Import CU.proofs.IsoFraming.
+Require Import CU.proofs.IsoFraming CU.proofs.IsoNoInvention.
 Require CU.gen.GenConfig.
 Import ListNotations.
 
@@ -42,6 +42,19 @@ Print Assumptions C08_sound.
 Corollary C08_inside : forall fs start total, tiles fs start total -> Forall (fun f => start <= fr_off f /\ fr_end f <= total) fs.
 Proof. exact c08_inside. Qed.
 Print Assumptions C08_inside.
+
+(* nothing is invented: every entry of the result is the MTI or was contributed by one of the flagged elements — by the
+   decoding of that element's own bytes (its value, and the entries derived from it: PDSxxxx, TAGxxxx / ICC_DATA, DE43_*,
+   whose shape is fixed by C12_recovery, C02_icc_entries and C02_de43_entries) *)
+Theorem C08_nothing_invented : forall cfg cd hexbm b d, loads cfg cd hexbm b = Ok d ->
+  exists mti frames ess,
+    let data := skipn (hdr hexbm) b in
+    tiles frames 0 (length data) /\
+    Forall2 (ni_contributes cfg cd data) frames ess /\
+    forall k v, lookup d k = Some v ->
+      (k = KMTI /\ v = VStr mti) \/ exists es, In es ess /\ In (k, v) es.
+Proof. exact c08_nothing_invented. Qed.
+Print Assumptions C08_nothing_invented.
 
 (* conversely: a message that is well framed with plain decimal prefixes, decodable text, convertible typed values and
    walkable PDS / TLV sub-structure is accepted (a merchant-field element: its splitting pattern, if any, sits on text
